@@ -68,6 +68,7 @@ class HostBase:
         self.len_syms: Dict[int, List[Any]] = {}
         self.conversions: Dict[Any, AV] = {}
         self.regex_module: Dict[int, str] = {}
+        self.int_origin: Dict[int, Any] = {}
         self.match_text: Dict[int, str] = {}
 
     # ----------------------------------------------------------- utilities
